@@ -265,7 +265,8 @@ def judge(args):
                                                           "fault_kind": fk, "observed_log": obs_log})
                 cnt("C06_cases")
             # C04: every passed async iterator released at completion
-            if "C04" in want and case["nnext"] >= 1 and o.ending is not None:
+            never_advanced_handle = tool == "chain" and not cfg["par"]["outer"] and case["nnext"] == 0 and o.ending == "close"
+            if "C04" in want and (case["nnext"] >= 1 or never_advanced_handle) and o.ending is not None:
                 bad = sorted(i for i, r in o.released.items() if not r)
                 if tool == "chain" and cfg["par"]["outer"]:
                     # documented ownership rule of chain.from_iterable: only the outer
@@ -277,6 +278,8 @@ def judge(args):
                            "close": "close", None: "open"}.get(o.ending, o.ending)
                     who = "failed-source" if any(o.states.get(i) == "failed" for i in bad) else \
                           ("unstarted-source" if all(o.states.get(i) == "new" for i in bad) else "source")
+                    if never_advanced_handle:
+                        how = "close-of-never-advanced-handle"
                     viol("C04", f"unreleased-{who}-after-{how}", {"projection": "lifecycle", "expected": "closed|exhausted",
                                                                    "observed": o.states, "flavour": fl["src"], "fault_kind": fk,
                                                                    "observed_log": obs_log})
